@@ -953,7 +953,11 @@ def planner(
             query_items,
             best_index,
             matches,
-            default_limit or query.limit,
+            default_limit
+            or min(
+                Config.max_limit if query.limit is None else query.limit,
+                Config.max_limit,
+            ),
             query.since,
             query.until,
             {},
